@@ -330,31 +330,25 @@ func checkC14(p *Prog, rp *Report) {
 			fillProblems(ix, "deb.Load", pos, problems, "ArContent = the members; repeated names rejected")
 		}
 	}
-	// the decompressor table may only be re-parameterised for xz
-	gw := rp.Rule("C14-TABLEWRITE", "the decompressor table is only changed to re-parameterise xz", 1)
+	// nothing on the loading path writes package-level state (a configuration function that callers may
+	// invoke between loads, such as the xz dictionary limit setter, is not on that path)
+	gw := rp.Rule("C14-TABLEWRITE", "loading does not modify package-level state", 1)
+	onPath := map[*ssa.Function]bool{}
+	for _, root := range []*ssa.Function{p.Func("deb", "Load"), p.Func("deb", "LoadFile"), p.Func("deb", "LoadAr"), p.Method("deb", "Deb", "CheckDebsig")} {
+		for _, f := range reachableRepoFuncs(root) {
+			onPath[f] = true
+		}
+	}
 	n := 0
 	for _, w := range globalWrites(p, "deb") {
-		n++
-		okW := false
-		for _, b := range w.Fn.Blocks {
-			for _, ins := range b.Instrs {
-				if mu, ok := ins.(*ssa.MapUpdate); ok {
-					if k, ok := constString(mu.Key); ok && k == ".xz" {
-						if mc, ok := stripIface(mu.Value).(*ssa.MakeClosure); ok {
-							for _, cl := range allCalls(mc.Fn.(*ssa.Function)) {
-								if calleeName(cl.Common()) == "github.com/xi2/xz.NewReader" {
-									okW = true
-								}
-							}
-						}
-					}
-				}
-			}
+		if !onPath[w.Fn] {
+			continue
 		}
-		gw.check(okW, "deb:"+w.G+":writer("+fname(w.Fn)+")", p.Pos(w.Pos), "only replaces the .xz row by another xz reader", "package-level state of package deb is modified at run time other than to re-parameterise the .xz decompressor")
+		n++
+		gw.bad("deb:"+w.G+":writer("+fname(w.Fn)+")", p.Pos(w.Pos), "package-level state of package deb is modified while loading a package: the outcome of a load can depend on earlier loads", nil)
 	}
 	if n == 0 {
-		gw.ok("deb:(no writer)", "", "no function writes package-level state")
+		gw.ok("deb:(no writer on the loading path)", "", fmt.Sprintf("%d functions reachable from Load / LoadFile / LoadAr / CheckDebsig: none stores to a package-level variable or to a map reachable from one", len(onPath)))
 	}
 }
 
